@@ -26,6 +26,7 @@ type Case struct {
 	Dialect string `json:"dialect"` // mysql | postgres
 	Mode    int    `json:"mode"`    // migrate.PlanMode: 0 unset, 1 in-place, 2 deferred, 3 dump
 	Multi   bool   `json:"multi"`   // a second, two-column FK per edge (random tier)
+	Split   bool   `json:"split,omitempty"` // tables live in two schemas (table i in schema i%2) and tables 2k, 2k+1 share the name t<k>: plans are made from a realm diff and carry schema-qualified names
 	Names   int    `json:"names"`   // 0: FK named after its edge (a re-pointed FK is drop+add); 1: named after its table and slot (the n-th FK of a table keeps its name when it points elsewhere: ModifyForeignKey)
 }
 
@@ -36,6 +37,24 @@ const (
 )
 
 func tname(i int) string { return fmt.Sprintf("t%d", i) }
+
+var schemaNames = []string{"app", "crm"}
+
+// key is the catalogue name of table i: its name, or schema.name when the case spreads the tables over two schemas.
+func (c Case) key(i int) string {
+	if c.Split {
+		return schemaNames[i%2] + "." + tname(i/2)
+	}
+	return tname(i)
+}
+
+// qual builds a catalogue key from the names found in a statement.
+func (c *catalogue) qual(s, name string) string {
+	if !c.split {
+		return name
+	}
+	return s + "." + name
+}
 
 // namer returns the FK naming function for one side (current or desired) of a case.
 func (c Case) namer(edges []Edge) func(e Edge, multi bool) string {
@@ -66,12 +85,21 @@ func (c Case) namer(edges []Edge) func(e Edge, multi bool) string {
 
 // build creates the schema graph holding the given tables and FK edges. Every table has the same columns
 // in both schemas (id, aux, and r<j>/s<j> for every other table), so the only differences are tables and FKs.
-func build(c Case, tables []int, edges []Edge) *schema.Schema {
+func build(c Case, tables []int, edges []Edge) *schema.Realm {
 	s := schema.New("app")
+	r := schema.NewRealm(s)
+	ss := []*schema.Schema{s, s}
+	if c.Split {
+		ss[1] = schema.New("crm")
+		r.AddSchemas(ss[1])
+	}
 	intT := &schema.IntegerType{T: "bigint"}
 	byI := map[int]*schema.Table{}
 	for _, i := range tables {
 		t := schema.NewTable(tname(i))
+		if c.Split {
+			t = schema.NewTable(tname(i / 2))
+		}
 		id := schema.NewColumn("id").SetType(intT)
 		aux := schema.NewColumn("aux").SetType(intT)
 		t.AddColumns(id, aux)
@@ -85,7 +113,7 @@ func build(c Case, tables []int, edges []Edge) *schema.Schema {
 		if c.Multi {
 			t.AddIndexes(schema.NewUniqueIndex("u_" + tname(i)).AddColumns(id, aux))
 		}
-		s.AddTables(t)
+		ss[i%2].AddTables(t)
 		byI[i] = t
 	}
 	fkname := c.namer(edges)
@@ -100,7 +128,7 @@ func build(c Case, tables []int, edges []Edge) *schema.Schema {
 			t.AddForeignKeys(schema.NewForeignKey(fkname(e, true)).AddColumns(col, col2).SetRefTable(ref).AddRefColumns(rid, raux).SetOnDelete(schema.NoAction).SetOnUpdate(schema.NoAction))
 		}
 	}
-	return s
+	return r
 }
 
 func (c Case) fromTables() (out []int) {
@@ -127,18 +155,19 @@ type fkRef struct{ table, ref string }
 type catalogue struct {
 	tables map[string]bool
 	fks    map[string]fkRef // "table.fkname" -> (table, referenced table)
+	split  bool
 }
 
 func newCatalogue(c Case, tables []int, edges []Edge) *catalogue {
-	cat := &catalogue{tables: map[string]bool{}, fks: map[string]fkRef{}}
+	cat := &catalogue{tables: map[string]bool{}, fks: map[string]fkRef{}, split: c.Split}
 	for _, i := range tables {
-		cat.tables[tname(i)] = true
+		cat.tables[c.key(i)] = true
 	}
 	fkname := c.namer(edges)
 	for _, e := range edges {
-		cat.fks[tname(e.From)+"."+fkname(e, false)] = fkRef{tname(e.From), tname(e.To)}
+		cat.fks[c.key(e.From)+"."+fkname(e, false)] = fkRef{c.key(e.From), c.key(e.To)}
 		if c.Multi && (e.From+e.To)%2 == 0 {
-			cat.fks[tname(e.From)+"."+fkname(e, true)] = fkRef{tname(e.From), tname(e.To)}
+			cat.fks[c.key(e.From)+"."+fkname(e, true)] = fkRef{c.key(e.From), c.key(e.To)}
 		}
 	}
 	return cat
@@ -174,12 +203,13 @@ func (c *catalogue) apply(cmd string) error {
 	case reIndex.MatchString(cmd):
 		// index statements do not take part in the table/foreign-key dependency rules checked here
 	case reCreate.MatchString(cmd):
-		name := reCreate.FindStringSubmatch(cmd)[2]
+		m := reCreate.FindStringSubmatch(cmd)
+		name := c.qual(m[1], m[2])
 		if c.tables[name] {
 			return fmt.Errorf("table %s created twice / already exists", name)
 		}
 		for _, m := range reConstFK.FindAllStringSubmatch(cmd, -1) {
-			fk, ref := m[1], m[3]
+			fk, ref := m[1], c.qual(m[2], m[3])
 			if ref != name && !c.tables[ref] {
 				return fmt.Errorf("CREATE TABLE %s declares %s referencing %s which does not exist yet", name, fk, ref)
 			}
@@ -187,7 +217,8 @@ func (c *catalogue) apply(cmd string) error {
 		}
 		c.tables[name] = true
 	case reDropTbl.MatchString(cmd):
-		name := reDropTbl.FindStringSubmatch(cmd)[2]
+		m := reDropTbl.FindStringSubmatch(cmd)
+		name := c.qual(m[1], m[2])
 		if !c.tables[name] {
 			return fmt.Errorf("table %s dropped but does not exist (dropped twice?)", name)
 		}
@@ -204,7 +235,7 @@ func (c *catalogue) apply(cmd string) error {
 		delete(c.tables, name)
 	case reAlter.MatchString(cmd):
 		m := reAlter.FindStringSubmatch(cmd)
-		name, rest := m[2], m[3]
+		name, rest := c.qual(m[1], m[2]), m[3]
 		if !c.tables[name] {
 			return fmt.Errorf("ALTER TABLE on %s which does not exist", name)
 		}
@@ -217,7 +248,7 @@ func (c *catalogue) apply(cmd string) error {
 			delete(c.fks, k)
 		}
 		for _, a := range reConstFK.FindAllStringSubmatch(rest, -1) {
-			fk, ref := a[1], a[3]
+			fk, ref := a[1], c.qual(a[2], a[3])
 			if !c.tables[ref] {
 				return fmt.Errorf("foreign key %s.%s added referencing %s which does not exist", name, fk, ref)
 			}
@@ -251,9 +282,23 @@ func checkCase(c Case) (Outcome, error) {
 	from := build(c, c.fromTables(), c.FromE)
 	to := build(c, c.toTables(), c.ToE)
 	differ, planner := planners(c.Dialect)
-	changes, err := differ.SchemaDiff(from, to)
+	var (
+		changes []schema.Change
+		err     error
+	)
+	if c.Split {
+		changes, err = differ.RealmDiff(from, to)
+	} else {
+		changes, err = differ.SchemaDiff(from.Schemas[0], to.Schemas[0])
+	}
 	if err != nil {
 		return out, fmt.Errorf("SchemaDiff: %v", err)
+	}
+	popts := func(o *migrate.PlanOptions) {
+		o.Mode = migrate.PlanMode(c.Mode)
+		if !c.Split {
+			o.SchemaQualifier = new(string)
+		}
 	}
 	type res struct {
 		plan *migrate.Plan
@@ -261,10 +306,7 @@ func checkCase(c Case) (Outcome, error) {
 	}
 	ch := make(chan res, 1)
 	go func() {
-		p, err := planner.PlanChanges(context.Background(), "plan", changes, func(o *migrate.PlanOptions) {
-			o.Mode = migrate.PlanMode(c.Mode)
-			o.SchemaQualifier = new(string)
-		})
+		p, err := planner.PlanChanges(context.Background(), "plan", changes, popts)
 		ch <- res{p, err}
 	}()
 	var r res
@@ -289,10 +331,7 @@ func checkCase(c Case) (Outcome, error) {
 	}
 	// the same change set planned again (what `schema apply` does: once to show, once to apply) gives the same plan;
 	// a planner that edits its input would break the second one
-	again, err := planner.PlanChanges(context.Background(), "plan", changes, func(o *migrate.PlanOptions) {
-		o.Mode = migrate.PlanMode(c.Mode)
-		o.SchemaQualifier = new(string)
-	})
+	again, err := planner.PlanChanges(context.Background(), "plan", changes, popts)
 	if err != nil {
 		return out, fmt.Errorf("planning the same change set a second time failed: %v", err)
 	}
